@@ -96,6 +96,18 @@ def _faulty_setitem(self, key, value):
 
 
 BIG = [False]
+NONEVALS = [False]
+
+
+class NoneFn(W.MapFn):
+    """the loader returns None for every third example"""
+
+    def __call__(self, x):
+        ctx, ids = W._enter(self.stage, x)
+        ctx.event('ret', self.stage, ids)
+        if ids[0] % 3 == 0:
+            return None
+        return {'f': self.stage, 'x': x}
 
 
 class BigFn(W.MapFn):
@@ -108,6 +120,8 @@ class BigFn(W.MapFn):
 
 
 def value_of(i):
+    if NONEVALS[0]:
+        return None if i % 3 == 0 else {'f': 'u0', 'x': {'src': i}}
     if BIG[0]:
         return {'f': 'u0', 'x': {'src': i}, 'blob': 'b%d' % i * 20000}
     return {'f': 'u0', 'x': {'src': i}}
@@ -118,6 +132,8 @@ def make_upstream(n, kind):
         src = lazy_dataset.new({'k%d' % i: {'src': i} for i in range(n)})
     else:
         src = lazy_dataset.new([{'src': i} for i in range(n)])
+    if NONEVALS[0]:
+        return src.map(NoneFn('u0'))
     return src.map(BigFn('u0') if BIG[0] else W.MapFn('u0'))
 
 
@@ -258,7 +274,9 @@ def gen(rng, tier, index):
     n = rng.randrange(1, 7)
     kind = rng.choice(['list', 'dict'])
     big = rng.random() < 0.2
+    nonevals = (not big) and rng.random() < 0.2
     BIG[0] = big
+    NONEVALS[0] = nonevals
     cases = []
     # (a) crash-point family
     accesses = [gen_access(rng, n, kind) for _ in range(rng.randrange(1, 6))]
@@ -279,13 +297,14 @@ def gen(rng, tier, index):
                    set(inside_set))
     for k in kills:
         cases.append({'mode': 'crash', 'n': n, 'kind': kind, 'pre': pre,
-                      'accesses': accesses, 'kill': k, 'big': big,
+                      'accesses': accesses, 'kill': k, 'big': big, 'nonevals': nonevals,
                       'parent_open': rng.random() < 0.3})
     # (b) lifecycle histories
     for j in range(3):
-        cases.append({'mode': 'life', 'n': n, 'kind': kind, 'big': big,
+        cases.append({'mode': 'life', 'n': n, 'kind': kind, 'big': big, 'nonevals': nonevals,
                       'ops': gen_life_ops(rng, n, kind)})
     BIG[0] = False
+    NONEVALS[0] = False
     return cases
 
 
@@ -614,10 +633,12 @@ def run_life(case):
 
 def run(case):
     BIG[0] = bool(case.get('big'))
+    NONEVALS[0] = bool(case.get('nonevals'))
     try:
         return _run(case)
     finally:
         BIG[0] = False
+        NONEVALS[0] = False
 
 
 def _run(case):
@@ -630,6 +651,8 @@ def _run(case):
             m, extra = run_life(case)
             nontrivial = bool(m.fired)
     m.fired['mode_' + case['mode']] += 1
+    if case.get('nonevals'):
+        m.fired['none_valued_examples'] += 1
     if case.get('big'):
         m.fired['file_backed_examples'] += 1
         m.probes['examples_stored_as_separate_files'] = 1
